@@ -345,6 +345,19 @@ def auipc_programs(rng):
     return out
 
 
+def indirect_jump_programs(rng):
+    """Jumps through a register other than ra (`jr t0`, `jalr zero, 0(t1)`): the register is read by the jump;
+    x5 / t0 in particular is an ordinary temporary here, whatever its role as an alternate link register."""
+    out = []
+    for reg in ("t0", "t1", "x5", "s2", "a3"):
+        for form in ("jr {r}", "jalr zero, 0({r})", "jalr x0, {r}, 0"):
+            out.append(f"main:\n    li a0, 5\n    la {reg}, target\n    {form.format(r=reg)}\ntarget:\n    li a7, 1\n    ecall\n"
+                       "    li a7, 10\n    ecall\n")
+    out.append("main:\n    jal f\n    li a7, 10\n    ecall\nf:\n    la t0, pick\n    beqz a0, other\n    jr t0\nother:\n    ret\npick:\n"
+               "    li a0, 1\n    ret\n")
+    return out
+
+
 def exit_then_loop_programs(rng):
     """A loop written right behind an exit ecall: until the edge out of the exit is cut, the loop head
     sees the exit's a7 as well, so the service number of an ecall inside the loop (set before the
@@ -480,7 +493,7 @@ def dead_chain_programs(rng):
 
 
 def gen_programs(rng, n, sloppy_choices=(0, 0.1, 0.3), multi=0.15):
-    out = list(CORPUS) + branch_matrix() + ecall_matrix() + arith_matrix(rng) + alloca_programs(rng) + handler_layouts(rng) + early_out_programs(rng) + entry_by_jump_programs(rng) + [long_chain_program(rng), slow_convergence_program(rng), slow_convergence_program(rng)] + label_then_directive_programs(rng) + exit_in_function_programs(rng) + dead_chain_programs(rng) + alias_base_programs(rng) + exit_then_loop_programs(rng) + tail_jump_programs(rng) + auipc_programs(rng)
+    out = list(CORPUS) + branch_matrix() + ecall_matrix() + arith_matrix(rng) + alloca_programs(rng) + handler_layouts(rng) + early_out_programs(rng) + entry_by_jump_programs(rng) + [long_chain_program(rng), slow_convergence_program(rng), slow_convergence_program(rng)] + label_then_directive_programs(rng) + exit_in_function_programs(rng) + dead_chain_programs(rng) + alias_base_programs(rng) + exit_then_loop_programs(rng) + tail_jump_programs(rng) + auipc_programs(rng) + indirect_jump_programs(rng)
     for _ in range(max(4, n // 10)):
         out.append(handler_program(rng))
         out.append(backward_layout(rng))
